@@ -74,10 +74,40 @@ def commit_rule(repo: Repo, rep: Report, rid: str) -> None:
               rid, f"{af.key}:field", "Field(name, type_, bits=bits, offset=offset)", "add_field does not pass all its arguments to Field", af.loc())
 
 
+def update_fields_fold(repo: Repo):
+    from ..folds import fold_update_fields
+
+    cache = repo.__dict__.setdefault("_uf_fold", {})
+    if "v" not in cache:
+        cache["v"] = fold_update_fields(repo)
+    return cache["v"]
+
+
+def _commit_checks(repo: Repo, rep: Report, rid: str) -> None:
+    cm = repo.func("types/structure.py", "StructureMetaType.commit")
+    loops = [f for f in walk_body(cm.node.body) if isinstance(f, ast.For)]
+    ok = len(loops) == 1 and "classdict.items()" in norm(loops[0].iter) and len(loops[0].body) == 1 and \
+        isinstance(loops[0].body[0], ast.Expr) and call_name(loops[0].body[0].value) == "setattr" and not any(isinstance(x, ast.If) for x in ast.walk(loops[0]))
+    rep.check(ok, rid, f"{cm.key}:install", "every key of the class dict is installed with setattr", "commit filters or skips keys of the class dict", cm.loc())
+    call = [c for c in walk_body(cm.node.body) if isinstance(c, ast.Call) and call_name(c) == "_update_fields"]
+    rep.check(len(call) == 1 and [norm(a) for a in call[0].args] == ["cls.__fields__", "cls.__align__"], rid, f"{cm.key}:inputs",
+              "recomputed from cls.__fields__ with the class's alignment mode", "commit does not recompute from (cls.__fields__, cls.__align__)", cm.loc())
+
+
 def refresh_rule(repo: Repo, rep: Report, rid: str) -> None:
     rep.rule(rid, "commit refreshes every derived attribute: every key of the class dict built by _update_fields is assigned on every path (both arms "
                   "of the recompile try assign _read and __compiled__) and commit installs every key on the class")
     fi = repo.func("types/structure.py", "StructureMetaType._update_fields")
+    uf = update_fields_fold(repo)
+    if uf is not None:
+        bad = [b_ for b_ in uf["bad"] if "recompilation" not in b_[1] and "offset calculation" not in b_[1]]
+        rep.info["update_fields_fold_cases"] = uf["cases"]
+        rep.check(not bad, rid, f"{fi.key}:fold", f"_update_fields folded over {uf['cases']} (kind of class, compiled?, field list) cases: the class dict holds every "
+                  "derived attribute, computed from the new field list (folded / raw name tables, generated methods, size, alignment, dynamic, reader and "
+                  "compiled flag on both outcomes of the recompilation)",
+                  f"_update_fields for '{bad[0][0] if bad else ''}': {bad[0][1] if bad else ''} {bad[0][2] if bad else ''}", fi.loc())
+        _commit_checks(repo, rep, rid)
+        return
     g = CFG(fi.node)
     assigns: dict[str, list] = {}
     for n in g.nodes:
@@ -138,6 +168,17 @@ def offsets_before_compile_rule(repo: Repo, rep: Report, rid: str) -> None:
     rep.rule(rid, "field offsets are computed before the reader is (re)generated: in _update_fields the size/offset calculation (which assigns "
                   "Field.offset) dominates the recompilation")
     fi = repo.func("types/structure.py", "StructureMetaType._update_fields")
+    uf = update_fields_fold(repo)
+    if uf is not None:
+        bad = [b_ for b_ in uf["bad"] if "recompilation" in b_[1] or "offset calculation" in b_[1]]
+        rep.check(not bad, rid, f"{fi.key}:offsets-before-compile", "folded: one offset calculation over the new field list, and the recompilation sees its offsets "
+                  "(with align=cls.__align__)",
+                  f"_update_fields for '{bad[0][0] if bad else ''}': {bad[0][1] if bad else ''}; expected {bad[0][2] if bad else ''}: the reader would be generated from "
+                  "stale / missing Field.offset values (only visible in aligned mode with fields behind a gap)", fi.loc())
+        co = repo.func("types/structure.py", "StructureMetaType._calculate_size_and_offsets")
+        sets = [s2 for s2 in walk_body(co.node.body) if isinstance(s2, ast.Assign) and norm(s2.targets[0]) == "field.offset"]
+        rep.check(len(sets) >= 2, rid, f"{co.key}:assigns-offsets", "the calculator assigns every field's offset", "the calculator no longer assigns field offsets", co.loc())
+        return
     g = CFG(fi.node)
     calc = {n.id for n in g.nodes if n.kind == "stmt" and node_calls(n, "_calculate_size_and_offsets")}
     comp = [n for n in g.nodes if n.kind == "stmt" and node_calls(n, "compile_read")]
